@@ -60,6 +60,11 @@ def c10 (st : St) : List String → St × String
     | some rf, some me => result { st with rf := rf, me := me } {} "" []
     | _, _ => (st, "bad-op")
   | "co" :: _ => (st, "-")
+  | ["quorum", rf] =>
+    -- `run` with no reachable replica: one copy; acknowledged iff the quorum is 1
+    match rf.toNat? with
+    | some rf => (st, if quorum rf ≤ 1 then "ack 1" else s!"noquorum {quorum rf}")
+    | none => (st, "bad-op")
   | toks =>
     match st.node with
     | none => (st, "bad-op")
